@@ -194,3 +194,50 @@ Section Fuel.
     Forall (occurs D) sels -> s_collect_flat S D E (default_fuel D) ot sels visited <> None.
   Proof. intro H. apply collect_fuel_sufficient. apply occurs_list_depth. exact H. Qed.
 End Fuel.
+
+(** ** the bound [n] of [sels_ok] / [doc_ok] (levels of field nesting after merging) is monotone:
+    a document that is fine with [n] levels is fine with any larger bound, so "exists n" is all a
+    discharging lemma has to provide, and the value the check evaluates ([default_fuel D]) is a
+    harmless choice.  (A bound of [doc_depth D + 1] would be WRONG: the nesting continues through
+    fragment spreads — { a { ...F } }  F: { b { ...G } }  G: { c { d } } has four levels and depth
+    two; for documents without fragment cycles the levels are bounded by the sum of the depths,
+    hence by [default_fuel D]; with a cycle such as  F on O { o { ...F } }  no bound works and
+    [doc_ok] is false for every [n].) *)
+Section Mono.
+  Variables (S : schema) (D : document) (E : env) (fuel : nat).
+
+  Lemma type_ok_with_mono (r1 r2 : name -> list selection -> bool) t fields :
+    (forall ot sels, r1 ot sels = true -> r2 ot sels = true) ->
+    type_ok_with S r1 t fields = true -> type_ok_with S r2 t fields = true.
+  Proof.
+    intros Hr. unfold type_ok_with. destruct (lookup_type S (sty_base t)) as [[k|vals|fs ifs|fs|ms|]|]; try (intro H; exact H);
+      (intro H; rewrite forallb_forall in H |- *; intros ot Hot; apply Hr, H, Hot).
+  Qed.
+
+  Lemma group_ok_with_mono (r1 r2 : name -> list selection -> bool) ot kf :
+    (forall ot sels, r1 ot sels = true -> r2 ot sels = true) ->
+    group_ok_with S D r1 ot kf = true -> group_ok_with S D r2 ot kf = true.
+  Proof.
+    intros Hr. unfold group_ok_with. destruct (snd kf) as [|f fs]; [intro H; exact H|].
+    destruct (s_field_kind S ot (fn_name f)); try (intro H; exact H).
+    intro H. apply andb_true_iff in H as [H1 H2]. apply andb_true_iff. split; [exact H1|].
+    eapply type_ok_with_mono; eassumption.
+  Qed.
+
+  Lemma sels_ok_mono : forall n m ot sels,
+    (n <= m)%nat -> sels_ok S D E fuel n ot sels = true -> sels_ok S D E fuel m ot sels = true.
+  Proof.
+    induction n as [|n IH]; intros m ot sels Hle H; [discriminate|].
+    destruct m as [|m]; [inversion Hle|]. cbn [sels_ok] in H |- *.
+    destruct (s_collect S D E fuel ot sels) as [groups|]; [|discriminate].
+    rewrite forallb_forall in H |- *. intros kf Hkf.
+    eapply group_ok_with_mono; [|exact (H kf Hkf)].
+    intros ot' sels' H'. apply (IH m); [apply le_S_n; exact Hle|exact H'].
+  Qed.
+
+  Theorem doc_ok_mono n m : (n <= m)%nat -> doc_ok S D E fuel n = true -> doc_ok S D E fuel m = true.
+  Proof.
+    intros Hle H. unfold doc_ok in *. apply andb_true_iff in H as [H1 H2]. apply andb_true_iff. split; [exact H1|].
+    destruct (s_root_type S (op_kind D)) as [rt|]; [|discriminate]. eapply sels_ok_mono; eassumption.
+  Qed.
+End Mono.
